@@ -93,7 +93,8 @@ func listenEngine(args []string) error {
 			cancelKind = "ready+clients" // clients hold TCP connections (idle, or in the middle of a query) when serving stops
 		}
 		var clientConns []net.Conn
-		p := proxy.Proxy{Addrs: addrs, Upstream: &fakeUp{script: map[string]*behaviour{}}, MaxInflightRequests: 8, Timeout: time.Second}
+		// every query hangs in the upstream until the request timeout (5 s, run.go's default): serving must not wait for them
+		p := proxy.Proxy{Addrs: addrs, Upstream: &fakeUp{script: map[string]*behaviour{}, cur: &behaviour{kind: "hang"}}, MaxInflightRequests: 8, Timeout: 5 * time.Second}
 		ctx, cancel := context.WithCancel(context.Background())
 		done := make(chan error, 1)
 		start := time.Now()
@@ -122,6 +123,14 @@ func listenEngine(args []string) error {
 							cn.Write([]byte{0, 40, 1, 2, 1, 0}) // a length prefix and part of the message
 						}
 						clientConns = append(clientConns, cn)
+					}
+				}
+				// ... and a datagram whose query is still waiting for the upstream
+				if r.coin(60) {
+					if uc, err := net.Dial("udp", net.JoinHostPort(a.host, itoa(a.port))); err == nil {
+						q := msgSpec{id: r.intn(65536), flags: 0x0100, qs: [][]byte{question(encodeName("inflight.example"), 1, 1)}}.encode()
+						_, _ = uc.Write(q)
+						clientConns = append(clientConns, uc)
 					}
 				}
 			}
